@@ -50,7 +50,7 @@ Absent == [tree |-> {}, cur |-> NoRev, src |-> "", ver |-> 0, pv |-> ZeroPV, bod
 
 VARIABLES
   doc,        \* impl: [Peers -> [Docs -> document state]]
-  revs,       \* impl (v3): set of [d, id, par, body, del] - content addressed revision table
+  revs,       \* impl (v3): [Docs -> [revision id -> [par, body, del]]] - content addressed revision table
   pool,       \* configuration (v3): [Docs -> set of revision ids that may be generated]
   seq,        \* impl: [Peers -> Nat] last sequence allocated on the peer
   dseq,       \* impl: [Peers -> [Docs -> Nat]] sequence of the document's last write on the peer (0 = never)
@@ -64,19 +64,20 @@ VARIABLES
   rerun,      \* ghost: a re-run of a caught-up replication is in progress
   snap,       \* ghost: doc when the re-run started
   sync,       \* ghost: the state is a caught-up point
-  swapped,    \* ghost (v4): documents that went through the tombstone/tombstone adoption on BOTH peers (named deviation)
+  swapped,    \* ghost (v4): documents that went through the tombstone/tombstone adoption
+  devd,       \* ghost: documents on which a named deviation (below) has been observed - not required to converge afterwards
   hist
 
 impl  == <<doc, revs, seq, dseq, running, cursor, ckpt, msgs, out>>
-ghost == <<pool, twrote, edits, stops, reruns, rerun, snap, sync, swapped>>
+ghost == <<pool, twrote, edits, stops, reruns, rerun, snap, sync, swapped, devd>>
 vars  == <<impl, ghost, hist>>
 view  == <<impl, ghost>>
 
 -----------------------------------------------------------------------------
 (* ---- v3: revision trees ---- *)
-RevsOf(d) == {i \in revs : i.d = d}
-Info(d, r) == CHOOSE i \in revs : i.d = d /\ i.id = r
-InfoIn(R, d, r) == CHOOSE i \in R : i.d = d /\ i.id = r
+IdsIn(R, d) == DOMAIN R[d]
+InfoIn(R, d, r) == R[d][r]
+Info(d, r) == revs[d][r]
 RECURSIVE AncIn(_, _, _)
 AncIn(R, d, r) == IF r = NoRev THEN {} ELSE {r} \cup AncIn(R, d, InfoIn(R, d, r).par)
 Anc(d, r) == AncIn(revs, d, r)
@@ -95,16 +96,23 @@ TopOf(S) == CHOOSE r \in S : \A o \in S : o.g <= r.g        \* newest element of
 
 (* ids a new revision with this content may get: the existing id if the content exists, else a fresh one from the pool *)
 Cands(R, d, par, body, del, g) ==
-  LET same == {i \in R : i.d = d /\ i.par = par /\ i.body = body /\ i.del = del /\ i.id.g = g}
-      used == {i.id.x : i \in {j \in R : j.d = d /\ j.id.g = g}}
+  LET same == {i \in IdsIn(R, d) : i.g = g /\ R[d][i] = [par |-> par, body |-> body, del |-> del]}
+      used == {i.x : i \in {j \in IdsIn(R, d) : j.g = g}}
       free == {r \in pool[d] : r.g = g /\ r.x \notin used}
       lo == CHOOSE x \in used : \A y \in used : x <= y
       hi == CHOOSE x \in used : \A y \in used : x >= y
-  IN IF same # {} THEN {i.id : i \in same}
+  IN IF same # {} THEN same
      ELSE IF ~Canon THEN free
      ELSE IF used = {} THEN {r \in free : Cardinality({q \in free : q.x < r.x}) = Cardinality(free) \div 2}
      ELSE {r \in free : r.x = lo - 1 \/ r.x = hi + 1}
-Rec(d, id, par, body, del) == [d |-> d, id |-> id, par |-> par, body |-> body, del |-> del]
+Add(R, d, id, par, body, del) == [R EXCEPT ![d] = (id :> [par |-> par, body |-> body, del |-> del]) @@ @]
+
+(* chains of injected revisions from tip up to generation upto: set of [R, tip, added] *)
+RECURSIVE Extend(_, _, _, _)
+Extend(R, d, tip, upto) ==
+  IF tip.g >= upto THEN {[R |-> R, tip |-> tip, added |-> {}]}
+  ELSE UNION { {[R |-> e.R, tip |-> e.tip, added |-> e.added \cup {n}] : e \in Extend(Add(R, d, n, tip, -1, FALSE), d, n, upto)}
+               : n \in Cands(R, d, tip, -1, FALSE, tip.g + 1) }
 
 (* document state after its tree became T (table R) *)
 TreeState(R, d, T) ==
@@ -143,13 +151,40 @@ Id(s) == IF Proto = "v3" THEN <<s.cur.g, s.cur.x>> ELSE <<s.src, s.ver>>
 Carried(s) == IF Proto = "v3" THEN [Absent EXCEPT !.cur = s.cur, !.body = s.body, !.del = s.del]
               ELSE [s EXCEPT !.tree = {}, !.cur = NoRev]
 
+(* ---- views and named deviations, over a document table D and a revision table R (used primed in GhostSync) ---- *)
+SameViewIn(D, d) == LET a == D["A"][d]
+                        b == D["B"][d]
+                    IN Id(a) = Id(b) /\ a.body = b.body /\ a.del = b.del /\ Exists(a) = Exists(b)
+(* named deviation (v4, genuine, reproduced - NOTES.md): when both peers hold a tombstone, each ADOPTS the other's vector
+   (allowConflictingTombstone in PutExistingCurrentVersion); with push and pull crossing, the current versions swap and
+   each side then reports the other's version as already known *)
+CvSwapIn(D, d) == LET a == D["A"][d]
+                      b == D["B"][d]
+                  IN /\ Proto = "v4" /\ a.del /\ b.del /\ Id(a) # Id(b)
+                     /\ Dominates(a, b.src, b.ver) /\ Dominates(b, a.src, a.ver)
+(* named deviation (v3, genuine, reproduced - NOTES.md): UNSENT TOMBSTONE.  The changes feed lists a document under its
+   winning revision.  A peer that holds the tombstone t of (a descendant of) the other peer's CURRENT revision as a leaf
+   that is NOT its own winner never offers t: its winner is another branch - a tombstone that wins by (generation, digest),
+   e.g. the tombstone left on the branch that lost an earlier conflict, or a live revision adopted meanwhile - which the
+   other peer already has or must reject (409).  The deletion does not replicate: one peer deleted and the other live,
+   two different live revisions each of which the other side has tombstoned, or two tombstones under different ids. *)
+UnsentTombAt(D, R, p, d) ==
+  LET a == D[p][d]
+      b == D[Other(p)][d]
+  IN /\ Proto = "v3" /\ Exists(a) /\ Exists(b)
+     /\ \E t \in LeavesIn(R, d, a.tree) : /\ t # a.cur /\ InfoIn(R, d, t).del /\ t \notin b.tree
+                                          /\ b.cur \in AncIn(R, d, t)
+UnsentTombIn(D, R, d) == \E p \in Peers : UnsentTombAt(D, R, p, d)
+DeviationIn(D, R, d) == CvSwapIn(D, d) \/ UnsentTombIn(D, R, d)
+
+
 Init ==
   /\ doc = [p \in Peers |-> [d \in Docs |-> Absent]]
-  /\ revs = {} /\ seq = [p \in Peers |-> 0] /\ dseq = [p \in Peers |-> [d \in Docs |-> 0]]
+  /\ revs = [d \in Docs |-> <<>>] /\ seq = [p \in Peers |-> 0] /\ dseq = [p \in Peers |-> [d \in Docs |-> 0]]
   /\ running = FALSE /\ cursor = [x \in Dirs |-> 0] /\ ckpt = [x \in Dirs |-> 0] /\ msgs = [x \in Dirs |-> {}]
   /\ out = [a |-> "None", d |-> 0, res |-> "None"]
   /\ twrote = [p \in Peers |-> [d \in Docs |-> FALSE]] /\ edits = 0 /\ stops = 0 /\ reruns = 0
-  /\ rerun = FALSE /\ snap = doc /\ sync = FALSE /\ swapped = {} /\ pool = InitPool
+  /\ rerun = FALSE /\ snap = doc /\ sync = FALSE /\ swapped = {} /\ devd = {} /\ pool = InitPool
   /\ hist = <<>>
 
 NoMsgs == \A x \in Dirs : msgs[x] = {}
@@ -174,7 +209,7 @@ ImplWriteV3(p, d, kind, body) ==
   LET s == doc[p][d]
       del == kind = "delete"
   IN \E id \in Cands(revs, d, s.cur, body, del, s.cur.g + 1) :
-       LET R == revs \cup {Rec(d, id, s.cur, body, del)} IN
+       LET R == Add(revs, d, id, s.cur, body, del) IN
        /\ revs' = R
        /\ doc' = [doc EXCEPT ![p][d] = TreeState(R, d, s.tree \cup {id})]
 
@@ -201,7 +236,8 @@ ImplWrite(p, d, kind, body, v) ==
   /\ UNCHANGED <<running, cursor, ckpt, msgs>>
   /\ out' = [a |-> "Write", d |-> d, res |-> kind]
 
-GhostSync == sync' = (running' /\ (\A x \in Dirs : msgs'[x] = {}) /\ \A x \in Dirs : \A d \in Docs : cursor'[x] >= dseq'[Src(x)][d])
+GhostSync == /\ sync' = (running' /\ (\A x \in Dirs : msgs'[x] = {}) /\ \A x \in Dirs : \A d \in Docs : cursor'[x] >= dseq'[Src(x)][d])
+             /\ devd' = devd \cup {d \in Docs : DeviationIn(doc', revs', d)}
 GhostWrite(p, d) ==
   /\ twrote' = [twrote EXCEPT ![p][d] = TRUE]
   /\ edits' = edits + 1
@@ -297,23 +333,30 @@ ApplyV3(x, m) ==
       localWins == IF curDel # inc.del THEN curDel ELSE RevGE(cur, r)      \* DefaultConflictResolver
       put(R, T2, res) == /\ revs' = R /\ doc' = [doc EXCEPT ![t][d] = TreeState(R, d, T2)]
                          /\ Bump(t, d) /\ out' = [a |-> "Apply", d |-> d, res |-> res]
+      starve == /\ UNCHANGED <<doc, revs, seq, dseq>> /\ out' = [a |-> "Apply", d |-> d, res |-> "starved"]   \* model bound hit (NotStarved)
   IN IF r \in T THEN /\ UNCHANGED <<doc, revs, seq, dseq>> /\ out' = [a |-> "Apply", d |-> d, res |-> "known"]
      ELSE IF ~illegal THEN put(revs, T \cup H, IF bypass /\ cur # NoRev /\ par # cur THEN "tombstones" ELSE "forward")
      ELSE IF x = "push" THEN /\ UNCHANGED <<doc, revs, seq, dseq>> /\ out' = [a |-> "Apply", d |-> d, res |-> "rejected"]
      ELSE IF ~localWins
        THEN \* resolveDocRemoteWins: tombstone the local active revision (unless it is one), add the incoming branch
             IF curDel THEN put(revs, T \cup H, "remote")
+            ELSE IF Cands(revs, d, cur, 0, TRUE, cur.g + 1) = {} THEN starve
             ELSE \E tb \in Cands(revs, d, cur, 0, TRUE, cur.g + 1) :
-                   put(revs \cup {Rec(d, tb, cur, 0, TRUE)}, T \cup H \cup {tb}, "remote")
+                   put(Add(revs, d, tb, cur, 0, TRUE), T \cup H \cup {tb}, "remote")
      ELSE IF ~curDel
        THEN \* resolveDocLocalWins: local body rewritten as a child of the remote revision, old local revision tombstoned
-            \E n \in Cands(revs, d, r, s.body, FALSE, r.g + 1) :
-              LET R1 == revs \cup {Rec(d, n, r, s.body, FALSE)} IN
-              \E tb \in Cands(R1, d, cur, 0, TRUE, cur.g + 1) :
-                put(R1 \cup {Rec(d, tb, cur, 0, TRUE)}, T \cup H \cup {n, tb}, "local")
-       ELSE \* local tombstone wins over a live remote revision: the remote branch is extended past the local generation and tombstoned
-            \E n \in Cands(revs, d, r, 0, TRUE, Max(cur.g, r.g) + 1) :
-              put(revs \cup {Rec(d, n, r, 0, TRUE)}, T \cup H \cup {n}, "local")
+            IF Cands(revs, d, r, s.body, FALSE, r.g + 1) = {} THEN starve
+            ELSE \E n \in Cands(revs, d, r, s.body, FALSE, r.g + 1) :
+              LET R1 == Add(revs, d, n, r, s.body, FALSE) IN
+              IF Cands(R1, d, cur, 0, TRUE, cur.g + 1) = {} THEN starve
+              ELSE \E tb \in Cands(R1, d, cur, 0, TRUE, cur.g + 1) :
+                put(Add(R1, d, tb, cur, 0, TRUE), T \cup H \cup {n, tb}, "local")
+       ELSE \* local tombstone wins over a live remote revision: localWinsConflictResolutionRevTreeHandling injects empty
+            \* revisions (body marker -1) into the remote branch up to the local generation, then tombstones it
+            LET E == Extend(revs, d, r, cur.g) IN
+            IF E = {} \/ \E e \in E : Cands(e.R, d, e.tip, 0, TRUE, e.tip.g + 1) = {} THEN starve
+            ELSE \E e \in E : \E n \in Cands(e.R, d, e.tip, 0, TRUE, e.tip.g + 1) :
+              put(Add(e.R, d, n, e.tip, 0, TRUE), T \cup H \cup e.added \cup {n}, "local")
 
 (* ApplyRev v4: PutExistingCurrentVersion on the target *)
 ApplyV4(x, m) ==
@@ -375,21 +418,16 @@ LiveSpec == Spec /\ Fair
 
 -----------------------------------------------------------------------------
 (* C06 *)
-SameView(d) == LET a == doc["A"][d]
-                   b == doc["B"][d]
-               IN Id(a) = Id(b) /\ a.body = b.body /\ a.del = b.del /\ Exists(a) = Exists(b)
+SameView(d) == SameViewIn(doc, d)
+CvSwap(d) == CvSwapIn(doc, d)
+UnsentTomb(d) == UnsentTombIn(doc, revs, d)
+Deviation(d) == DeviationIn(doc, revs, d)
 (* where convergence is promised: bidirectional - every document; one direction only - the documents the environment never
    wrote on the TARGET side (a target-side edit is invisible to the source: a conflicting push is rejected, a resolved pull
    that the local revision wins is not sent back) *)
 Promised(d) == Bidirectional \/ \A x \in Dirs : ~twrote[Tgt(x)][d]
-(* named deviation (v4, genuine - NOTES.md): when both peers hold a tombstone, each ADOPTS the other's vector
-   (allowConflictingTombstone in PutExistingCurrentVersion); with push and pull crossing, the current versions swap *)
-CvSwap(d) == LET a == doc["A"][d]
-                 b == doc["B"][d]
-             IN /\ Proto = "v4" /\ a.del /\ b.del /\ Id(a) # Id(b)
-                /\ Dominates(a, b.src, b.ver) /\ Dominates(b, a.src, a.ver)
 Converged == sync => \A d \in Docs : Promised(d) => SameView(d)
-ConvergedModSwap == sync => \A d \in Docs : Promised(d) => (SameView(d) \/ CvSwap(d))
+ConvergedModDev == sync => \A d \in Docs : Promised(d) => (SameView(d) \/ d \in devd)
 (* a resolved conflict leaves one live revision at most on each peer (and by Converged both adopt the same one) *)
 LiveLeaves(p, d) == {r \in LeavesIn(revs, d, doc[p][d].tree) : ~Info(d, r).del}
 SingleWinner == Proto = "v3" => \A p \in Peers, d \in Docs : Cardinality(LiveLeaves(p, d)) <= 1
@@ -399,13 +437,14 @@ IdempotentRerun ==
   rerun => /\ doc = snap
            /\ \A x \in Dirs : \A m \in msgs[x] : m.st \in {"wanted", "sent"} => ~(Promised(m.d) /\ SameView(m.d))
 (* liveness: edits stop => eventually always converged (push-and-pull) *)
-AllSame == \A d \in Docs : SameView(d) \/ CvSwap(d)
+AllSame == \A d \in Docs : SameView(d) \/ d \in devd
 EventuallyConverged == <>[](AllSame)
 
 (* auxiliary *)
-TypeOK == /\ \A p \in Peers, d \in Docs : doc[p][d].tree \subseteq {i.id : i \in RevsOf(d)}
+TypeOK == /\ \A p \in Peers, d \in Docs : doc[p][d].tree \subseteq IdsIn(revs, d)
           /\ \A x \in Dirs : ckpt[x] <= cursor[x] \/ ~running \/ rerun
 CurIsWinner == Proto = "v3" => \A p \in Peers, d \in Docs : doc[p][d].cur = WinnerIn(revs, d, doc[p][d].tree)
+NotStarved == out.res # "starved"
 SeqBound == \A p \in Peers : seq[p] < MaxSeq
 CkptSafe == rerun \/ \A x \in Dirs : \A m \in msgs[x] : ckpt[x] < m.seq
 =============================================================================
